@@ -71,6 +71,10 @@ pub struct Srv {
     pub connected: bool,
     pub wire: Option<WireLog>,
     pub clock_mode: u64,
+    /// Some(x): the next input is delivered in two calls (cut position derived from x); the event of the first
+    /// call (which completes no message) is queued in `pending`
+    pub frag: Option<u64>,
+    pub pending: Vec<Value>,
 }
 
 pub fn packets_of(rs: &[ServerSessionResult]) -> Vec<&rml_rtmp::chunk_io::Packet> {
@@ -120,7 +124,7 @@ impl Srv {
         let (s, rs) = ServerSession::new(cfg).expect("server session");
         let mut peer = Peer::new();
         let results = results_json(&mut peer, &rs);
-        let mut srv = Srv { s, peer, clock, reqs: vec![], streams: vec![], connected: false, wire, clock_mode: 0 };
+        let mut srv = Srv { s, peer, clock, reqs: vec![], streams: vec![], connected: false, wire, clock_mode: 0, frag: None, pending: vec![] };
         srv.wire_record(&rs);
         let ev = json!({"ev":"New","cfg":cfgj,"res":"ok","results":results,"probe":probe_json(&srv.s),"clk":w(clock as u32)});
         (srv, ev)
@@ -156,6 +160,22 @@ impl Srv {
     }
 
     pub fn input(&mut self, desc: Value, bytes: &[u8]) -> Value {
+        if let Some(x) = self.frag.take() {
+            if bytes.len() >= 2 {
+                let cut = 1 + (x % (bytes.len() as u64 - 1)) as usize;
+                let first = self.input_whole(json!({"m":"frag"}), &bytes[..cut]);
+                let ok = first["res"] == "ok";
+                self.pending.push(first);
+                if !ok {
+                    return self.input_whole(json!({"m":"frag"}), &[]);
+                }
+                return self.input_whole(desc, &bytes[cut..]);
+            }
+        }
+        self.input_whole(desc, bytes)
+    }
+
+    pub fn input_whole(&mut self, desc: Value, bytes: &[u8]) -> Value {
         if self.clock_mode == 0 { self.clock += 3; }
         rml_rtmp::verif::set_clock(Some(self.clock));
         let _ = rml_rtmp::verif::tap_drain();
@@ -471,7 +491,17 @@ pub fn generate(kind: &str, tier: &str, seed: u64, shard: u64, nshards: u64, pat
         let mut prev_probe = probe_json(&srv.s);
         for _ in 0..n {
             srv.tick(&mut rng);
+            // every fourth input arrives in two calls, the first of which completes no message
+            srv.frag = if rng.chance(1, 4) { Some(rng.next()) } else { None };
             let e = random_step(&mut rng, &mut srv, &padlens);
+            srv.frag = None;
+            let mut frag_failed = false;
+            for p in srv.pending.drain(..) {
+                frag_failed |= p["res"] != "ok";
+                prev_probe = p["probe"].clone();
+                t.emit(&p);
+                steps += 1;
+            }
             // a panic poisons the session; an Err from handle_input may have discarded packets that
             // were already serialized (finding K1, judged under C18), after which the peer decoder
             // of this harness can no longer follow: end the run in both cases
@@ -479,7 +509,7 @@ pub fn generate(kind: &str, tier: &str, seed: u64, shard: u64, nshards: u64, pat
             prev_probe = e["probe"].clone();
             t.emit(&e);
             steps += 1;
-            if dead {
+            if dead || frag_failed {
                 break;
             }
         }
